@@ -325,6 +325,27 @@ fn check_server(s: &Srv, out: &mut Out, which: &str) {
         }
     }
     }
+    // ---- C13 / C07: a peer that falls silent in the middle of an upload: the worker gives up and removes the partial file ----
+    if want(&["C13", "C07"]) {
+    if !s.cfg.read_only && !s.cfg.overwrite && !s.cfg.distinct && !s.cfg.trailing_sep {
+        let c = client();
+        c.send_to(&wrq("abandoned.bin", vec![opt(OptionType::Timeout, 1)]), s.addr).unwrap();
+        if let Some((Packet::Oack(_), from)) = recv(&c) {
+            c.send_to(&Packet::Data { block_num: 1, data: vec![9u8; 512] }.serialize().unwrap(), from).unwrap();
+            let _ = recv(&c);
+            // silence: six time-outs of one second each
+            let t0 = std::time::Instant::now();
+            let path = s.recv_dir.join("abandoned.bin");
+            while path.exists() && t0.elapsed() < Duration::from_secs(14) {
+                std::thread::sleep(Duration::from_millis(200));
+            }
+            if path.exists() {
+                out.add("C13", s, "an upload (timeout option 1 s) whose peer fell silent after block 1: the partial file is still there after 14 s of silence although clean-on-error is in force".to_string());
+                out.add("C07", s, "an upload (timeout option 1 s) whose peer fell silent after block 1: the receiving worker has not given up after 14 s of silence".to_string());
+            }
+        }
+    }
+    }
     // ---- C12: two interleaved transfers stay separate; an endpoint may start another transfer after its first one ------
     if want(&["C12"]) {
     {
